@@ -1059,6 +1059,39 @@ func (e *Eng) execGo(st *State, s *ast.GoStmt) *State {
 		}
 		e.gap("go statement on a non-literal function: effects havocked, spawn rule not checked (%s)", e.src(s.Call))
 		key, _, _ := calleeKey(e.info, s.Call)
+		if e.con != nil && (e.con.Safe || e.con.GoSafe) && strings.Contains(key, repoModule) {
+			// a goroutine started on a gqlgen function: that function must itself be under a contract that speaks
+			// about panics (a panic on it kills the process), and its preconditions hold at the spawn
+			con := e.contracts.lookup(key, e.declPkg())
+			if con == nil {
+				e.oblige(st, "safe", "spawned-own-function-without-contract "+shortKey(key), "false", s.Pos())
+			} else {
+				if !con.Trusted && !(con.Safe || con.NoPanic || con.NoEscape || con.AssumeNoPanic) {
+					e.oblige(st, "safe", "spawned-own-function-contract-silent-on-panics "+shortKey(key), "false", s.Pos())
+				}
+				if len(con.Requires) > 0 {
+					cenv := map[string]*Val{}
+					for i, pn := range con.Params {
+						if i < len(args) {
+							cenv[pn] = args[i]
+						}
+					}
+					if sel, ok := ast.Unparen(s.Call.Fun).(*ast.SelectorExpr); ok {
+						if fn, ok := e.info.ObjectOf(sel.Sel).(*types.Func); ok {
+							if sig, ok := fn.Type().(*types.Signature); ok && sig.Recv() != nil {
+								rv := e.eval(st, sel.X)
+								cenv[sig.Recv().Name()] = rv
+								cenv["recv"] = rv
+							}
+						}
+					}
+					for _, rq := range con.Requires {
+						g := e.evalSpec(st, rq, cenv, cenv)
+						e.oblige(st, "pre", "go "+shortKey(key)+" requires "+rq.String(), g.T, s.Pos())
+					}
+				}
+			}
+		}
 		if key != "" {
 			st.counters["go:"+key] = fmt.Sprintf("(+ %s 1)", counterOf(st, "go:"+key))
 		}
